@@ -1,14 +1,138 @@
 import PyaModel.Spec.WF
 import PyaModel.Generated.ClassTable
+import PyaModel.Proofs.C03
 /-!
 # Props/C03 — assignability of a concrete value equals runtime membership
+
+Property theorems only. Model: `Pya.ca` (Core/Assign.lean, follows `Value.can_assign` branch by
+branch). Spec: `Pya.mem` (Spec/Mem.lean, structural membership of an object in a static type).
 -/
 namespace Pya
 
 /-- Obligation over the regenerated class table (re-checked by the kernel on every run): the
 class-level verdicts pyanalyze computes on the live tree satisfy the laws of `Spec/TableLaws`
 (nominal relation = issubclass + numeric tower outside protocol targets; reflexivity; generic
-bases of the builtin containers). -/
+bases of the builtin containers; builtin ids in range; `tuple`/`list` non-protocol with one
+parameter and without further subclasses in the object universe). -/
 theorem liveTable_ok : tableOk liveTable = true := by decide +kernel
+
+/-- **C03, full-strength statement** (false of the pinned pyanalyze: see the three witnesses
+below). For every well-formed static type and well-formed object, the checker accepts the literal
+exactly when the object is a member of the type. -/
+def AssignKnownEqMem (tbl : ClassTable) : Prop :=
+  ∀ (T : Ty) (o : Obj), T.wf tbl = true → o.wf tbl = true →
+    ca tbl false T (.known o) = mem tbl o T
+
+/-- **C03, outside the exception classes.** For every class table satisfying the laws of
+`Spec/TableLaws`, every well-formed fully static type `T` and every well-formed object `o` such
+that `T` has no unpacked tuple member (class `variadicTuple`), `o` contains no frozenset (class
+`frozensetLiteral`), the pair is not a `str`/`bytes` object against a generic ABC target (where the
+property text is silent) and is not a class object against a protocol target (class
+`protoClassObj`): the model of pyanalyze's `T.can_assign(KnownValue(o))` succeeds exactly when `o`
+is structurally a member of `T`. -/
+theorem assign_known_eq_mem_partial (tbl : ClassTable) (htbl : tableOk tbl = true)
+    (T : Ty) (o : Obj) (hT : T.wf tbl = true) (ho : o.wf tbl = true)
+    (h1 : T.hasMany = false) (h2 : o.hasFset = false)
+    (h3 : strVsGeneric T o = false) (h4 : protoClassObj tbl T o = false) :
+    ca tbl false T (.known o) = mem tbl o T :=
+  ca_known_eq_mem tbl (laws_of_tableOk tbl htbl) T o
+    ⟨hT, ho, h1, h2, Bool.and_eq_false_iff.mp h3, Bool.and_eq_false_iff.mp h4⟩
+
+/-- The same statement for the class table regenerated from the live tree. -/
+theorem assign_known_eq_mem_live (T : Ty) (o : Obj)
+    (hT : T.wf liveTable = true) (ho : o.wf liveTable = true)
+    (h1 : T.hasMany = false) (h2 : o.hasFset = false)
+    (h3 : strVsGeneric T o = false) (h4 : protoClassObj liveTable T o = false) :
+    ca liveTable false T (.known o) = mem liveTable o T :=
+  assign_known_eq_mem_partial liveTable liveTable_ok T o hT ho h1 h2 h3 h4
+
+/-! ## Witnesses: the full statement is false in each exception class (live table)
+
+`ca`/`mem` are defined by well-founded recursion, which the kernel does not unfold: the
+evaluations below unfold the equation lemmas with `simp only` and leave the closed table look-ups
+to `decide +kernel`. -/
+
+/-- class `variadicTuple`: `(1, "a")` is a `tuple[int, *tuple[str, ...]]` but is rejected. -/
+theorem variadicTuple_witness :
+    ca liveTable false (.seq C.tuple [.typed C.int, .many (.typed C.str)])
+        (.known (.tuple [.int 1, .str "a"])) = false ∧
+    mem liveTable (.tuple [.int 1, .str "a"]) (.seq C.tuple [.typed C.int, .many (.typed C.str)])
+      = true := by
+  simp only [ca, caZipK, mem, memSeq, matchSeq, typedCA, clsOf]
+  decide +kernel
+
+/-- class `frozensetLiteral`: `frozenset({1})` is accepted as a `frozenset[str]`. -/
+theorem frozensetLiteral_witness :
+    ca liveTable false (.generic C.frozenset [.typed C.str]) (.known (.fset [.int 1])) = true ∧
+    mem liveTable (.fset [.int 1]) (.generic C.frozenset [.typed C.str]) = false := by
+  have h : liveTable.gbase C.frozenset C.frozenset = some [.param 0] := by rfl
+  simp only [ca, theirArgs, clsOf, h, instArgs, mem, memArgs, memAll, typedCA, Option.map_some,
+    List.map_cons, List.map_nil, List.getD_nil, List.length_cons, List.length_nil,
+    beq_self_eq_true, if_true, caArgs, caArg, ca_any]
+  decide +kernel
+
+/-- class `protoClassObj`: the class object `dict` is accepted as a `Container` (class 17). -/
+theorem protoClassObj_witness :
+    ca liveTable false (.typed 17) (.known (.cls C.dict)) = true ∧
+    mem liveTable (.cls C.dict) (.typed 17) = false := by
+  simp only [ca, mem, typedCA, clsOf]
+  decide +kernel
+
+/-- Hence the full statement fails on the live table. -/
+theorem assignKnownEqMem_live_false : ¬ AssignKnownEqMem liveTable := by
+  intro h
+  have := h (.typed 17) (.cls C.dict) (by decide +kernel) (by decide +kernel)
+  rw [protoClassObj_witness.1, protoClassObj_witness.2] at this
+  cases this
+
+/-! ## Non-vacuity: the hypotheses are met by non-trivial inputs, and both verdicts occur -/
+
+/-- `list[int | Literal["a"]]` -/
+def exTy : Ty := .generic C.list [.union [.typed C.int, .known (.str "a")]]
+def exObj : Obj := .list [.int 1, .str "a"]
+def exObjBad : Obj := .list [.int 1, .str "b"]
+example : exTy.wf liveTable = true := by decide +kernel
+example : exObj.wf liveTable = true := by decide +kernel
+example : exTy.hasMany = false := by decide +kernel
+example : exObj.hasFset = false := by decide +kernel
+example : strVsGeneric exTy exObj = false := by decide +kernel
+example : protoClassObj liveTable exTy exObj = false := by decide +kernel
+example : mem liveTable exObj exTy = true := by
+  simp only [exObj, exTy, mem, memArgs, memAll, memAny, clsOf]
+  decide +kernel
+example : ca liveTable false exTy (.known exObj) = true := by
+  have h : liveTable.gbase C.list C.list = some [.param 0] := by rfl
+  simp only [exObj, exTy, ca, theirArgs, clsOf, h, instArgs, typedCA, Option.map_some,
+    List.map_cons, List.map_nil, List.getD_cons_zero, List.length_cons, List.length_nil,
+    beq_self_eq_true, if_true, caArgs, caArg, caMems, caAnyL]
+  decide +kernel
+example : mem liveTable exObjBad exTy = false := by
+  simp only [exObjBad, exTy, mem, memArgs, memAll, memAny, clsOf]
+  decide +kernel
+/-- the rejected literal, through the theorem -/
+example : ca liveTable false exTy (.known exObjBad) = false := by
+  rw [assign_known_eq_mem_live exTy exObjBad (by decide +kernel) (by decide +kernel)
+    (by decide +kernel) (by decide +kernel) (by decide +kernel) (by decide +kernel)]
+  simp only [exObjBad, exTy, mem, memArgs, memAll, memAny, clsOf]
+  decide +kernel
+
+/-- `Mapping[int, tuple[float, type[int]]]` (class 18 = `Mapping`) against `{1: (2, bool)}`:
+a two-parameter ABC target, a sequence form, numeric promotion, a class object. -/
+def exTy2 : Ty := .generic 18 [.typed C.int, .seq C.tuple [.typed C.float, .subclass C.int]]
+def exObj2 : Obj := .dict [.int 1] [.tuple [.int 2, .cls C.bool]]
+example : exTy2.wf liveTable = true := by decide +kernel
+example : exObj2.wf liveTable = true := by decide +kernel
+example : exTy2.hasMany = false := by decide +kernel
+example : exObj2.hasFset = false := by decide +kernel
+example : strVsGeneric exTy2 exObj2 = false := by decide +kernel
+example : protoClassObj liveTable exTy2 exObj2 = false := by decide +kernel
+example : mem liveTable exObj2 exTy2 = true := by
+  simp only [exObj2, exTy2, mem, memArgs, memAll, memSeq, matchSeq, clsOf]
+  decide +kernel
+example : ca liveTable false exTy2 (.known exObj2) = true := by
+  rw [assign_known_eq_mem_live exTy2 exObj2 (by decide +kernel) (by decide +kernel)
+    (by decide +kernel) (by decide +kernel) (by decide +kernel) (by decide +kernel)]
+  simp only [exObj2, exTy2, mem, memArgs, memAll, memSeq, matchSeq, clsOf]
+  decide +kernel
 
 end Pya
